@@ -17,7 +17,9 @@ RULE = ('random integer-weighted flux matrices, n = 1..9: (a) acyclic conserved 
         'empty or out-of-range source/sink lists, source that is also a sink, repeated sources); '
         '1..3 sources and sinks; both removal schemes; num_paths in {default inf, 0, 1, 2, 3, 5}; '
         'flux_cutoff in {default 1-1e-10, 0, .25, .37, .5, .9, 1.0, 2.0}; float64/float32, C/F order, '
-        'matrix scaled by a power of two (exact in floating point: covers non-integer matrices); '
+        'matrix scaled by a power of two 2^-40..2^20 (exact in floating point: covers non-integer matrices and '
+        'the 1e-9..1e-12 magnitudes of real MSM net fluxes); (d) near-tie family: fluxes B, B+1, B+2 with '
+        'B ~ 1e6..1e7 (relative gap 1e-6..1e-7) on diamonds / shared prefixes / ladders / superposed flows; '
         'a case is non-trivial when at least one pathway is returned; distinct by canonical input')
 ASSUMPTIONS = [
     'float64/float32 arithmetic (compare, min, subtract) on integers times a power of two is exact, so the '
@@ -355,7 +357,7 @@ def pick_st(rng, n, allow_overlap=False):
     return S, T
 
 
-def gen_conserved(rng, nmax=9):
+def gen_conserved(rng, nmax=9, weight=None):
     n = int(rng.integers(2, nmax + 1))
     S, T = pick_st(rng, n)
     order = [int(x) for x in rng.permutation(n)]
@@ -369,13 +371,13 @@ def gen_conserved(rng, nmax=9):
         mids = [v for v in order if pos[s] < pos[v] < pos[t] and v not in S and v not in T]
         dens = rng.random()
         p = [s] + [v for v in mids if rng.random() < dens] + [t]
-        w = int(rng.integers(1, wmax + 1))
+        w = int(rng.integers(1, wmax + 1)) if weight is None else weight()
         for a, b in zip(p[:-1], p[1:]):
             F[a][b] += w
     return {'kind': 'conserved', 'flux': F, 'sources': S, 'sinks': T}
 
 
-def gen_digraph(rng, nmin=5, nmax=9):
+def gen_digraph(rng, nmin=5, nmax=9, weight=None):
     n = int(rng.integers(nmin, nmax + 1))
     S, T = pick_st(rng, n)
     dens = float(rng.choice([0.15, 0.3, 0.5, 0.8]))
@@ -385,8 +387,42 @@ def gen_digraph(rng, nmin=5, nmax=9):
     for i in range(n):
         for j in range(n):
             if (i != j or selfloop) and rng.random() < dens:
-                F[i][j] = int(rng.integers(1, wmax + 1))
+                F[i][j] = int(rng.integers(1, wmax + 1)) if weight is None else weight()
     return {'kind': 'digraph', 'flux': F, 'sources': S, 'sinks': T}
+
+
+def gen_neartie(rng):
+    """near ties: large integer fluxes B ~ 1e6..1e7 next to B+1, B+2, 1, 2 (relative gaps 1e-6..1e-7,
+    all exact in float64) on shapes where several pathways share edges"""
+    B = int(rng.choice([10 ** 6, 3 * 10 ** 6, 10 ** 7])) + int(rng.integers(0, 3))
+    k = int(rng.integers(0, 5))
+    if k == 0:      # diamond with a shared prefix: s->a, a->b1->t, a->b2->t, the prefix almost tied
+        d1, d2 = int(rng.integers(1, 3)), int(rng.integers(1, 3))
+        F = [[0] * 5 for _ in range(5)]
+        F[0][1] = 2 * B + d1 + d2
+        F[1][2], F[2][4] = B + d1, B + d1
+        F[1][3], F[3][4] = B + d2, B + d2
+        base = {'kind': 'conserved', 'flux': F, 'sources': [0], 'sinks': [4]}
+    elif k == 1:    # two pathways share a prefix whose edges exceed the first bottleneck by 1 or 2
+        d = int(rng.integers(1, 3))
+        F = [[0] * 6 for _ in range(6)]
+        F[0][1], F[1][2] = B + d, B + d
+        F[2][5] = B
+        F[2][3], F[3][5] = d, d
+        base = {'kind': 'conserved', 'flux': F, 'sources': [0], 'sinks': [5]}
+    elif k == 2:    # ladder: rails s->a1->a2->t and s->b1->b2->t with rungs, near-tied rails
+        d = int(rng.integers(1, 3))
+        F = [[0] * 6 for _ in range(6)]          # 0=s 1=a1 2=a2 3=b1 4=b2 5=t
+        F[0][1], F[1][2], F[2][5] = B + d, B, B + d
+        F[1][4] = d
+        F[0][3], F[3][4], F[4][5] = B, B, B
+        F[4][2] = d
+        base = {'kind': 'conserved', 'flux': F, 'sources': [0], 'sinks': [5]}
+    elif k == 3:
+        base = gen_conserved(rng, weight=lambda: B if rng.random() < 0.5 else int(rng.integers(1, 3)))
+    else:
+        base = gen_digraph(rng, 4, 8, weight=lambda: B + int(rng.integers(0, 3)))
+    return base
 
 
 def gen_degenerate(rng):
@@ -409,17 +445,19 @@ def gen_degenerate(rng):
     return {'kind': 'degenerate', 'flux': F, 'sources': S, 'sinks': T}
 
 
+# powers of two only: the scaled matrix, its minima and differences stay exact in binary floating point
+SCALES = [1.0, 1.0, 0.5, 0.125, 2.0 ** -20, 2.0 ** -30, 2.0 ** -34, 2.0 ** -40, 4.0, 2.0 ** 20]
 NUM_PATHS = [None, None, None, 1, 2, 3, 5, 0]
 CUTOFFS = [None, None, None, 0.0, 0.25, 0.37, 0.5, 0.9, 1.0, 2.0]
 
 
-def settings(rng, base):
+def settings(rng, base, dtype=None):
     """the paths() calls made for one graph"""
     out = []
-    variant = {'dtype': str(rng.choice(['float64', 'float64', 'float32'])),
+    variant = {'dtype': dtype or str(rng.choice(['float64', 'float64', 'float32'])),
                'order': str(rng.choice(['C', 'C', 'F'])),
                'container': str(rng.choice(['list', 'array', 'tuple'])),
-               'scale': float(rng.choice([1.0, 1.0, 0.5, 0.125, 2.0 ** -20, 4.0]))}
+               'scale': float(rng.choice(SCALES))}
     for scheme in ('subtract', 'bottleneck'):
         # run to exhaustion
         out.append(dict(base, what='paths', scheme=scheme, num_paths=None,
@@ -485,8 +523,16 @@ def run(ctx):
         else:
             base = gen_degenerate(rng)
         cases += settings(rng, base)
+    nt = ctx.n(300, 6000)
+    for g in range(nt):
+        cases += settings(rng, gen_neartie(rng), dtype='float64')
+    # the F16 diamond and the upstream graph at MSM-like magnitudes (1e-9 .. 1e-12)
+    for base in FIXED[:2]:
+        for sc in (2.0 ** -30, 2.0 ** -40):
+            for scheme in ('subtract', 'bottleneck'):
+                cases.append(dict(base, what='paths', scheme=scheme, num_paths=None, cutoff=None, scale=sc))
     run_cases(ctx, cases)
-    ctx.note('graphs', ng + len(FIXED))
+    ctx.note('graphs', ng + nt + len(FIXED))
 
 
 def replay(ctx, data):
